@@ -65,6 +65,17 @@ theorem registry_written_only_by_register :
         && u.2 != "read"))).map (·.1) =
       ["key.RegisterEncryptor", "key.RegisterMACer", "key.RegisterSigner", "key.RegisterVerifier"] := by decide +kernel
 
+/-- **key lookups do not write the shared key**: the only functions of the library that store into, delete from or
+    replace a label map they were handed (as receiver or as parameter) are the setters and the decoders — none of
+    the accessors (`Ops`, `Alg`, `Kty`, `Kid`, `Has`, `Get*`, `BaseIV`), `CheckKey`s, factories or conversions.
+    (A "normalise once" write-back in an accessor changes this list.) -/
+theorem key_maps_written_only_by_setters :
+    (footprints.filter (fun m => m.2.2.any (fun u =>
+        ((u.1 == "recv[]" || u.1 == "param[]") && u.2 != "read" && !(u.2.startsWith "arg:fmt."))
+        || (u.1 == "recv" && (u.2 == "assigned" || u.2 == "arg:delete#0"))))).map (·.1) =
+      ["key.ByteStr.UnmarshalJSON", "key.ByteStr.UnmarshalText", "key.CoseMap.Set", "key.CoseMap.UnmarshalCBOR",
+       "key.Key.SetKid", "key.Key.SetOps"] := by decide +kernel
+
 /-- the other package-level variables (`fixedIV`, tag prefixes, `encMode`/`decMode`) are never assigned -/
 theorem package_vars_never_assigned :
     (footprints.filter (fun m => m.2.2.any (fun u =>
